@@ -1,7 +1,7 @@
 import inspect
 import warnings
 from collections.abc import Mapping
-from functools import partial
+from functools import partial, wraps
 from typing import Callable, Dict, Type, TypeVar
 
 from ..utils import exceptions as exc
@@ -527,7 +527,26 @@ class ClassParser(BaseParser):
                         obj=self.obj,
                     )
 
-                __init__ = self.init_parser.wrap(parse_params=True, parse_result=False)
+                init_parser = self.init_parser
+
+                @wraps(init_func)
+                def __init__(_obj_self, *args, **kwargs):
+                    context = init_parser.make_context()
+                    parent = getattr(_obj_self, "__context__", None)
+                    if isinstance(parent, RuntimeContext):
+                        # initialized while parsing an outer value: the parameters are parsed
+                        # at the nesting level of this instance, so that max_depth keeps counting
+                        context.context = parent
+                        context.depth = parent.depth
+                        context.routes = list(parent.routes)
+                    return init_parser.sync_call(
+                        (_obj_self, *args),
+                        kwargs,
+                        context=context,
+                        parse_params=True,
+                        parse_result=False,
+                    )
+
                 __init__.__parser__ = self
                 # wrapped function is not as same as parse.obj
             else:
